@@ -1,6 +1,9 @@
 package c04
 
 import (
+	"os"
+	"strings"
+
 	"verif/harness/core"
 )
 
@@ -8,6 +11,15 @@ import (
 // avoids while the finding is listed (DESIGN §5).  The pinned witness of each finding still runs in every tier.
 var quarantine = func() map[string]bool {
 	q := map[string]bool{}
+	if s, ok := os.LookupEnv("VERIF_C04_QUARANTINE"); ok {
+		// development aid (trial runs against a patched tree): explicit list instead of the findings file
+		for _, id := range strings.Split(s, ",") {
+			if id != "" {
+				q[id] = true
+			}
+		}
+		return q
+	}
 	f := core.LoadFindings()
 	for _, k := range f.Findings {
 		if k.Property == "C04" {
@@ -28,6 +40,34 @@ func excluded(c *Case, o *Op) bool {
 	if quarantine["C04-string-index-redefine"] {
 		// [[DefineOwnProperty]] on a String object's own index with a value
 		if c.Kind == "string" && o.Op == "define" && o.Obj == "T" && (o.Key == "0" || o.Key == "1") && o.Mask&1 != 0 {
+			return true
+		}
+	}
+	if quarantine["C04-dynamic-proto-cycle"] {
+		// [[SetPrototypeOf]] of a Dynamic object/array to an object (a cycle kills the process)
+		if (c.Kind == "dynobj" || c.Kind == "dynarr") && o.Obj == "T" && (o.Op == "setProto" || o.Op == "set" && o.Key == "__proto__") && isObjectValue(o.Val) {
+			return true
+		}
+	}
+	if quarantine["C04-setproto-nonextensible-tostring"] {
+		// a failing [[SetPrototypeOf]] reported by throwing: any setProto/__proto__ assignment after an integrity op on the same object
+		if o.Op == "setProto" && o.Iss != "reflect" || o.Op == "set" && o.Key == "__proto__" {
+			for _, p := range c.Ops {
+				if p.Obj == o.Obj && (p.Op == "preventExtensions" || p.Op == "seal" || p.Op == "freeze") {
+					return true
+				}
+			}
+		}
+	}
+	if quarantine["C04-host-slice-elements-nonconfigurable-removable"] {
+		// Go slice wrappers: elements are reported non-configurable but vanish when length shrinks, and a non-extensible
+		// wrapper still grows: no length writes and no integrity ops on the wrapper
+		if (c.Kind == "goslice" || c.Kind == "gorefslice") && o.Obj == "T" {
+			if o.Key == "length" && (o.Op == "set" || o.Op == "define") || o.Op == "preventExtensions" || o.Op == "seal" || o.Op == "freeze" {
+				return true
+			}
+		}
+		if (c.Kind == "goslice" || c.Kind == "gorefslice") && o.Op == "set" && o.Recv == "T" && o.Key == "length" {
 			return true
 		}
 	}
